@@ -127,6 +127,8 @@ class Check:
         self.extra = {}
         self.exhaustive = True
         self.must_reach = {}
+        self.only_panics = False      # C07 mode: reuse other properties' explorations, keep only panic findings
+        self.panic_leaves = []
         self.known = self._load_known()
         self.timeout_ms = 10000 if self.tier == "quick" else 60000
         self._s = None
@@ -182,6 +184,8 @@ class Check:
         e = self.entries.setdefault(entry, {"leaves": 0, "returned": 0, "panicked": 0, "other": 0})
         for l in leaves:
             e["leaves"] += 1
+            if l.status == "panicked" and self.only_panics:
+                self.panic_leaves.append("%s: %s" % (entry, l.panics))
             if l.status in ("returned", "panicked"):
                 e[l.status] += 1
             else:
@@ -302,6 +306,8 @@ class Check:
     # -------------------------------------------------------------- violations
     def report(self, key, what, replay):
         """a natively confirmed violation.  key = role of the failing input (for known findings)"""
+        if self.only_panics and "panic" not in key:
+            return
         for k in self.known:
             if k.get("key") == key:
                 if key not in [h[0] for h in self.known_hits]:
@@ -318,6 +324,8 @@ class Check:
         self.violations.append((key, what, path))
 
     def engine(self, msg):
+        if self.only_panics and "leaf" not in msg and "panic" not in msg:
+            return
         self.engine_problems.append(msg)
 
     # -------------------------------------------------------------- parallel jobs
@@ -330,6 +338,7 @@ class Check:
         for k in self.COUNTERS:
             setattr(c, k, 0)
         c.samples, c.violations, c.known_hits, c.engine_problems = [], [], [], []
+        c.panic_leaves = []
         c.functions, c.models, c.programs = set(), set(), set()
         c.entries, c.must_reach, c.extra = {}, {}, {}
         c.exhaustive = True
@@ -339,7 +348,7 @@ class Check:
 
     def summary(self):
         d = {k: getattr(self, k) for k in self.COUNTERS}
-        d.update(samples=self.samples, violations=self.violations, known_hits=self.known_hits, engine_problems=self.engine_problems,
+        d.update(panic_leaves=self.panic_leaves, samples=self.samples, violations=self.violations, known_hits=self.known_hits, engine_problems=self.engine_problems,
                  functions=sorted(self.functions), models=sorted(self.models), programs=sorted(self.programs), entries=self.entries,
                  must_reach=self.must_reach, exhaustive=self.exhaustive)
         return d
@@ -347,6 +356,7 @@ class Check:
     def merge(self, d):
         for k in self.COUNTERS:
             setattr(self, k, getattr(self, k) + d[k])
+        self.panic_leaves.extend(d.get("panic_leaves", []))
         for sm in d["samples"]:
             self.sample(sm)
         for v in d["violations"]:
@@ -386,6 +396,14 @@ class Check:
     # -------------------------------------------------------------- finish
     def finish(self):
         wall = time.time() - self.t0
+        if self.only_panics:
+            # totality: one obligation per explored leaf - it returned, or its panic was replayed natively and reported
+            self.obligations = self.leaves
+            self.discharged = self.leaves - len(self.panic_leaves)
+            if self.panic_leaves and not self.violations and not self.known_hits:
+                self.engine_problems.append("symbolic panics that no native replay confirmed: %s" % "; ".join(self.panic_leaves[:5]))
+            elif self.panic_leaves:
+                self.discharged = self.obligations
         ev = {
             "property_id": self.pid,
             "tier": self.tier,
